@@ -173,8 +173,11 @@ def c16_jobs(tier):
     js = []
     for h in ("rclient0", "rclient1", "rclient2", "qhist0", "qhist1", "qhist2", "mhist0", "mhist1", "vhist0", "vhist2"):
         js.append(job(h, n, workers=1, tag=tag, **common))
-    js.append(job("qhist3", n, workers=1, tag="C05" + ("+quick" if tier != "thorough" else ""), **common))
-    js.append(job("qhist4", n, workers=1, tag="C06" + ("+quick" if tier != "thorough" else ""), **common))
+    # the bounded queues have "slot claimed but not yet published" states that only a stop at one particular step reaches:
+    # more cases, more workers (a seeded spin in vyukov try_push_weak needed about 10^4 cases per configuration)
+    nb = scale(tier, 80000, 2000000)
+    js.append(job("qhist3", nb, workers=3, tag="C05" + ("+quick" if tier != "thorough" else ""), **common))
+    js.append(job("qhist4", nb // 2, workers=2, tag="C06" + ("+quick" if tier != "thorough" else ""), **common))
     js.append(job("dhist", n, workers=1, tag=tag, **common))
     js.append(job("lrhist", n, workers=1, **common))
     js.append(job("slhist", n, workers=1, tag=tag, **common))
